@@ -314,7 +314,7 @@ REAL_FAULTS = [
 ]
 
 
-def real_one(spec: dict):
+def _real_once(spec: dict):
     """one fault on a real multi-process local cluster -> (record, [(signature, message, replay)])"""
     import glob
     import json
@@ -364,9 +364,24 @@ def real_one(spec: dict):
         viols.append(({"monitor": "wrong_value", "cause": f"real processes, {victim}: wrong value"}, f"{rec}", rp))
     elif real["executors_alive"] or real["shm_left"]:
         viols.append(({"monitor": "processes_left_behind" if real["executors_alive"] else "segments_left_behind", "cause": f"real processes, {victim}: leftovers after the run"}, f"{rec}", rp))
+    mismatch = None
     if real["outcome"] != v_outcome and real["outcome"] != "hang":
-        raise common.HarnessError(f"virtual cluster predicts '{v_outcome}' but the real cluster gave '{real['outcome']}' for {spec}: the model misrepresents the code")
-    return rec, viols
+        mismatch = f"virtual cluster predicts '{v_outcome}' but the real cluster gave '{real['outcome']}' ({real.get('exception')}) for {spec}"
+    return rec, viols, mismatch
+
+
+def real_one(spec: dict):
+    """Real processes run in real time: on a heavily loaded machine a registration or a resend grace can time out. A
+    run that disagrees with the virtual cluster's prediction is therefore repeated (up to 3 runs); only a persistent
+    disagreement is reported as 'the model misrepresents the code' (harness error)."""
+    last = None
+    for attempt in range(3):
+        rec, viols, mismatch = _real_once(spec)
+        rec["attempt"] = attempt + 1
+        if mismatch is None:
+            return rec, viols
+        last = mismatch
+    raise common.HarnessError(f"{last}: the model misrepresents the code (3 runs)")
 
 
 def real_validation(ctx, n: int) -> list:
@@ -376,6 +391,13 @@ def real_validation(ctx, n: int) -> list:
     out = []
     for spec in REAL_FAULTS[:n]:
         rec, viols = real_one(spec)
+        if viols:
+            # real time is not owned by the harness: an observation counts only if two more runs show it again
+            again = [real_one(spec)[1] for _ in range(2)]
+            keys = lambda vs: sorted(common.sig_key(sig) for sig, _, _ in vs)  # noqa: E731
+            if not all(keys(a) == keys(viols) for a in again):
+                rec["transient_observation"] = [sig for sig, _, _ in viols]
+                viols = []
         out.append(rec)
         for sig, msg, rp in viols:
             ctx.add_violation(common.Violation(sig, msg, rp))
